@@ -31,6 +31,8 @@ class Prop(RefProp):
                 gen_pipes.main_parser_failure(rng, case)
             elif r < 0.10:
                 gen_pipes.shared_failure_handler(rng, case)
+            elif r < 0.14:
+                gen_pipes.handler_jumps(rng, case)
             cases.append(case)
         return cases
 
